@@ -427,8 +427,8 @@ func (p *prop) genCF(rng *core.Rand) string {
 	if opt == "x" && rng.Chance(2, 3) {
 		opt = "n"
 	}
-	perm := []int{0, 1, 2, 3}
-	for i := 3; i > 0; i-- {
+	perm := []int{0, 1, 2, 3, 4, 5}
+	for i := 5; i > 0; i-- {
 		j := rng.Intn(i + 1)
 		perm[i], perm[j] = perm[j], perm[i]
 	}
@@ -518,7 +518,7 @@ func (p *prop) genE2E(rng *core.Rand) string {
 }
 
 var malformed = []string{
-	"cf", "cf n", "cf n 2", "cf n 2/", "cf n 4/q", "cf n 2/q;2/r", "cf z 2/q", "cf n 2/Z", "cf n 2/q;", "cf n 2/q 1", "cf n 2/~q",
+	"cf", "cf n", "cf n 2", "cf n 2/", "cf n 6/q", "cf n 2/q;2/r", "cf z 2/q", "cf n 2/Z", "cf n 2/q;", "cf n 2/q 1", "cf n 2/~q",
 	"ca", "ca 1", "ca 00000000", "ca 0100000", "ca 2000000", "ca 1300000", "ca 1030000", "ca 1000006", "ca 100000x", "ca 1000000 1",
 	"e2e", "e2e 0 f 2d 2d", "e2e 0 p1 7075626c69632e74657374", "e2e 1 p2 7075626c69632e74657374 2d", "e2e 0 p1 3132372e302e302e31 2d", "e2e 2 p1 612e 2d",
 	"e2e 1 p1 c3a8 2d", "e2e 0 f zz 2d", "e2e 0 f 7075626c69632e74657374 2d x", "e2e 5 f 7075626c69632e74657374 2d", "e2e f 7075626c69632e74657374 2d", "e2e 00 f 7075626c69632e74657374 2d",
